@@ -487,7 +487,14 @@ def run_component(ctx, comp, seeds=None, tier=None):
             tp = os.path.join(ctx.scratch, "%s-corpus-%s.trace" % (comp.name, fn))
             rc, err = run_harness([binp, "exec"], env, stdin_path=src, stdout_path=tp, timeout=1800)
             if rc != 0:
-                ctx.broken.append(("harness", "%s exec of corpus %s exited %d: %s" % (comp.name, fn, rc, err)))
+                # the inputs are fixed: a crash that comes from the code under test comes again; one that does not
+                # (the machine ran out of something) must not turn the run red
+                first = (rc, err)
+                rc, err = run_harness([binp, "exec"], env, stdin_path=src, stdout_path=tp, timeout=1800)
+                if rc == 0:
+                    ctx.notes.append("%s exec of corpus %s exited %d once and succeeded when repeated: %s" % (comp.name, fn, first[0], first[1][-300:]))
+            if rc != 0:
+                ctx.broken.append(("harness", "%s exec of corpus %s exited %d (twice): %s" % (comp.name, fn, rc, err)))
             want, got = count_lines(src), count_lines(tp)
             if want != got:
                 # a crash (goroutine panic, fatal error, os.Exit) loses the rest of the file: never replay a shortened trace as if it were whole
@@ -497,9 +504,15 @@ def run_component(ctx, comp, seeds=None, tier=None):
         if sd not in ctx.seeds_run:
             ctx.seeds_run.append(sd)
         tp = os.path.join(ctx.scratch, "%s-gen-%d.trace" % (comp.name, sd))
-        rc, err = run_harness([binp, "gen", "-seed", str(sd), "-tier", tier] + comp.gen_args, env, stdout_path=tp, timeout=7200)
+        gen_cmd = [binp, "gen", "-seed", str(sd), "-tier", tier] + comp.gen_args
+        rc, err = run_harness(gen_cmd, env, stdout_path=tp, timeout=7200)
         if rc != 0:
-            ctx.broken.append(("harness", "%s gen exited %d: %s" % (comp.name, rc, err)))
+            first = (rc, err)     # same seed, same sequences: see above
+            rc, err = run_harness(gen_cmd, env, stdout_path=tp, timeout=7200)
+            if rc == 0:
+                ctx.notes.append("%s gen (seed %d) exited %d once and succeeded when repeated: %s" % (comp.name, sd, first[0], first[1][-300:]))
+        if rc != 0:
+            ctx.broken.append(("harness", "%s gen exited %d (twice): %s" % (comp.name, rc, err)))
         traces.append(("seed:%d" % sd, tp))
     cstat = ctx.corr["components"].setdefault(comp.name, {"seqs": 0, "lines": 0, "diffs": 0, "viols": 0})
     seen_diff = set()
